@@ -14,7 +14,7 @@ prescribed companion of the scheduler, not the decider for interleavings.
 import itertools
 import core, zckref, universe, httpsim
 
-SCENS = ["copy", "write", "read", "validate", "feed", "feedmp", "life", "writez", "misc", "nowrite"]
+SCENS = ["copy", "write", "read", "validate", "feed", "feedmp", "life", "writez", "misc", "nowrite", "writefail"]
 
 
 def thread_data(t, seed):
@@ -60,6 +60,8 @@ def spec_line(slot, scen, d):
         return "thread %d scen=life a=%s" % (slot, d["zstd_dict"].hex())
     if scen == "writez":
         return "thread %d scen=writez a=%s c=%s" % (slot, (d["content"] * 3).hex(), d["dict"].hex())
+    if scen == "writefail":
+        return "thread %d scen=writefail a=%s" % (slot, core.prng_bytes(2048, 40 + slot).hex())
     if scen == "nowrite":
         return "thread %d scen=nowrite a=%s" % (slot, (d["content"] * 2).hex())
     if scen == "misc":
